@@ -52,20 +52,98 @@ theorem inc_off (c typ : Cps) (v : Val) (h : countsIn c = false) :
 
 @[simp] theorem pseudoElement_name : TT.pseudoElement.name = tyPseudoElement := rfl
 
-theorem unescapeGo_false_cons_colon (t : Cps) : unescapeGo false (58 :: t) = 58 :: unescapeGo false t := by
-  simp [unescapeGo]
+theorem unescNameGo_false_cons_colon (t : Cps) : unescNameGo false (58 :: t) = 58 :: unescNameGo false t := by
+  simp [unescNameGo]
 
-theorem normalize_cons_colon (t : Cps) : normalize (58 :: t) = 58 :: normalize t := by
-  simp [normalize, unescape, unescapeGo_false_cons_colon, lower, lowerCp]
+theorem normalizeName_cons_colon (t : Cps) : normalizeName (58 :: t) = 58 :: normalizeName t := by
+  simp [normalizeName, unescNameGo_false_cons_colon, lower, lowerCp]
 
-theorem normalize_colons (two : Bool) (t : Cps) : normalize (colons two ++ t) = colons two ++ normalize t := by
-  cases two <;> simp [colons, normalize_cons_colon]
+theorem normalizeName_colons (two : Bool) (t : Cps) :
+    normalizeName (colons two ++ t) = colons two ++ normalizeName t := by
+  cases two <;> simp [colons, normalizeName_cons_colon]
 
-@[simp] theorem normalize_colons_ne_lbrack (two : Bool) (t : Cps) : (normalize (colons two ++ t) == [91]) = false := by
-  cases two <;> simp [colons, normalize_cons_colon]
+theorem isNameCp_ne_bs {d : Nat} (h : isNameCp d = true) : (d == 92) = false := by
+  cases hd : (d == 92) with
+  | false => rfl
+  | true =>
+    have : d = 92 := by simpa using hd
+    subst this; revert h; decide
 
-@[simp] theorem normalize_colon_ne_lbrack (t : Cps) : (normalize (58 :: t) == [91]) = false := by
-  simp [normalize_cons_colon]
+theorem isNameCp_iff (d : Nat) :
+    isNameCp d = true ↔ (103 ≤ d ∧ d ≤ 122) ∨ (71 ≤ d ∧ d ≤ 90) ∨ d = 95 ∨ 128 ≤ d := by
+  simp [isNameCp, or_assoc]
+
+theorem isNameCp_lower (d : Nat) : isNameCp (lowerCp d) = isNameCp d := by
+  rw [Bool.eq_iff_iff, isNameCp_iff, isNameCp_iff]
+  simp only [lowerCp, Bool.and_eq_true, decide_eq_true_eq]
+  split <;> omega
+
+theorem lowerCp_eq_bs (c : Nat) : (lowerCp c == 92) = (c == 92) := by
+  rw [Bool.eq_iff_iff]
+  simp only [lowerCp, Bool.and_eq_true, decide_eq_true_eq, beq_iff_eq]
+  split <;> omega
+
+/-- the scan commutes with ASCII lower-casing -/
+theorem unescNameGo_lower (b : Bool) (l : Cps) : unescNameGo b (lower l) = lower (unescNameGo b l) := by
+  induction l generalizing b with
+  | nil => cases b <;> simp [lower, unescNameGo, lowerCp]
+  | cons c t ih =>
+    cases b with
+    | false =>
+      simp only [lower, List.map_cons, unescNameGo, lowerCp_eq_bs] at ih ⊢
+      split
+      · exact ih true
+      · simp [ih false]
+    | true =>
+      simp only [lower, List.map_cons, unescNameGo, isNameCp_lower] at ih ⊢
+      split
+      · simp [ih false]
+      · simp [ih false, lowerCp]
+
+/-- a second scan changes nothing: what is left escaped stays escaped -/
+theorem unescNameGo_idem (l : Cps) :
+    unescNameGo false (unescNameGo false l) = unescNameGo false l ∧
+    unescNameGo false (unescNameGo true l) = unescNameGo true l := by
+  induction l with
+  | nil => simp [unescNameGo]
+  | cons c t ih =>
+    constructor
+    · simp only [unescNameGo]
+      split
+      · exact ih.2
+      · rename_i h
+        simp [unescNameGo, h, ih.1]
+    · simp only [unescNameGo]
+      split
+      · rename_i h
+        have := isNameCp_ne_bs h
+        simp [unescNameGo, this, ih.1]
+      · rename_i h
+        simp [unescNameGo, h, ih.1]
+
+theorem lowerCp_lowerCp (c : Nat) : lowerCp (lowerCp c) = lowerCp c := by
+  simp only [lowerCp, Bool.and_eq_true, decide_eq_true_eq]
+  split
+  · split <;> omega
+  · rfl
+
+theorem lower_lower (l : Cps) : lower (lower l) = lower l := by
+  simp only [lower, List.map_map]
+  congr 1
+  funext c
+  exact lowerCp_lowerCp c
+
+/-- **the stored pseudo name is a fixpoint of the normalisation**: writing it out and reading it back stores it again -/
+theorem normalizeName_idem (x : Cps) : normalizeName (normalizeName x) = normalizeName x := by
+  simp only [normalizeName]
+  rw [unescNameGo_lower, (unescNameGo_idem x).1, lower_lower]
+
+@[simp] theorem normalizeName_colons_ne_lbrack (two : Bool) (t : Cps) :
+    (normalizeName (colons two ++ t) == [91]) = false := by
+  cases two <;> simp [colons, normalizeName_cons_colon]
+
+@[simp] theorem normalizeName_colon_ne_lbrack (t : Cps) : (normalizeName (58 :: t) == [91]) = false := by
+  simp [normalizeName_cons_colon]
 
 /-! ## fillers -/
 
@@ -176,11 +254,11 @@ theorem step_cls (ns : NsMap) (neg : Bool) (v : Cps) (r : List Cps) (el : Option
 def aftPseudo (neg elem : Bool) : Cps := if neg then c_negationend else if elem then c_combinator else eSSS2C
 
 theorem step_pseudo (ns : NsMap) (neg two : Bool) (n : Cps) (r : List Cps) (el : Option Val) (b c d : Nat) (wf : Bool)
-    (rs : List Item) (e : Cps) (he : BeforeOk neg e) (hn : endsWith (normalize (colons two ++ n)) [40] = false) :
+    (rs : List Item) (e : Cps) (he : BeforeOk neg e) (hn : endsWith (normalizeName (colons two ++ n)) [40] = false) :
     step ns ⟨ctxOf neg :: r, el, none, b, c, d, wf, rs, e⟩ ⟨pseudoTT two, colons two ++ n⟩
       = .ok ⟨ctxOf neg :: r, el, none, b, c, d + (if pseudoIsElem two n then 1 else 0), wf,
              pseudoItem two n :: rs, aftPseudo neg (pseudoIsElem two n)⟩ := by
-  cases hl : elemOf (normalize (colons two ++ n)) legacyPseudoElements <;> cases neg <;> cases two <;>
+  cases hl : elemOf (normalizeName (colons two ++ n)) legacyPseudoElements <;> cases neg <;> cases two <;>
     first
     | (rcases he with rfl | rfl | rfl <;>
         simp [step, runCb, cbPseudo, top, has, append_plain, incB, incC, incD, ctxOf, aft, aftPseudo, pseudoTT,
@@ -606,29 +684,53 @@ theorem run_args (ns : NsMap) (P : Cps) (hP : PseudoCtx P) (r : List Cps) (el : 
     rw [ih hargs.2, argPush_cons rs a t]
     cases hf : a.isFill <;> simp [hf]
 
-theorem step_func_open (ns : NsMap) (two : Bool) (f : Cps) (r : List Cps) (el : Option Val) (b c d : Nat) (wf : Bool)
-    (rs : List Item) (e : Cps) (he : BeforeOk false e) (hf : endsWith (normalize (colons two ++ f)) [40] = true) :
-    step ns ⟨cxRoot :: r, el, none, b, c, d, wf, rs, e⟩ ⟨pseudoTT two, colons two ++ f⟩
-      = .ok ⟨(pseudoTT two).name :: cxRoot :: r, el, none, b, c, d + (if two then 1 else 0), wf,
-             ⟨.str (normalize (colons two ++ f)), (pseudoTT two).name⟩ :: rs, c_expressionstart⟩ := by
-  have hl : elemOf (normalize (colons two ++ f)) legacyPseudoElements = false := by
-    cases h : elemOf (normalize (colons two ++ f)) legacyPseudoElements with
+theorem step_func_open (ns : NsMap) (neg two : Bool) (f : Cps) (r : List Cps) (el : Option Val) (b c d : Nat)
+    (wf : Bool) (rs : List Item) (e : Cps) (he : BeforeOk neg e)
+    (hf : endsWith (normalizeName (colons two ++ f)) [40] = true) :
+    step ns ⟨ctxOf neg :: r, el, none, b, c, d, wf, rs, e⟩ ⟨pseudoTT two, colons two ++ f⟩
+      = .ok ⟨(pseudoTT two).name :: ctxOf neg :: r, el, none, b, c, d + (if two then 1 else 0), wf,
+             ⟨.str (normalizeName (colons two ++ f)), (pseudoTT two).name⟩ :: rs, c_expressionstart⟩ := by
+  have hl : elemOf (normalizeName (colons two ++ f)) legacyPseudoElements = false := by
+    cases h : elemOf (normalizeName (colons two ++ f)) legacyPseudoElements with
     | false => rfl
     | true =>
       exfalso
       simp only [elemOf, legacyPseudoElements, Bool.or_false, Bool.or_eq_true, beq_iff_eq] at h
       rcases h with h | h | h | h <;> (rw [h] at hf; revert hf; decide)
-  cases two <;> rcases he with rfl | rfl | rfl <;>
-    simp [step, runCb, cbPseudo, top, has, append_plain, incB, incC, incD, pseudoTT, hl, hf,
+  cases neg
+  · cases two <;> rcases he with rfl | rfl | rfl <;>
+      simp [step, runCb, cbPseudo, top, has, append_plain, incB, incC, incD, pseudoTT, hl, hf, ctxOf,
+        Functor.map, Except.map, bind, Except.bind, pure, Except.pure]
+  · cases he
+    cases two <;>
+      simp [step, runCb, cbPseudo, top, has, append_plain, incB, incC, incD, pseudoTT, hl, hf, ctxOf,
+        Functor.map, Except.map, bind, Except.bind, pure, Except.pure]
+
+/-- `expected` after a functional pseudo -/
+def aftFunc (neg two : Bool) : Cps := if neg then c_negationend else if two then c_combinator else eSSSC
+
+theorem step_func_close (ns : NsMap) (neg two : Bool) (r : List Cps) (el : Option Val) (b c d : Nat) (wf : Bool)
+    (rs : List Item) :
+    step ns ⟨(pseudoTT two).name :: ctxOf neg :: r, el, none, b, c, d, wf, rs, c_expression⟩ ⟨.char, [41]⟩
+      = .ok ⟨ctxOf neg :: r, el, none, b, c, d, wf, ⟨.str [41], tyFuncEnd⟩ :: rs, aftFunc neg two⟩ := by
+  cases neg <;> cases two <;>
+    simp [step, runCb, cbChar, top, has, append_plain, incB, incC, incD, pseudoTT, ctxOf, aftFunc,
       Functor.map, Except.map, bind, Except.bind, pure, Except.pure]
 
-theorem step_func_close (ns : NsMap) (two : Bool) (r : List Cps) (el : Option Val) (b c d : Nat) (wf : Bool)
-    (rs : List Item) :
-    step ns ⟨(pseudoTT two).name :: r, el, none, b, c, d, wf, rs, c_expression⟩ ⟨.char, [41]⟩
-      = .ok ⟨r, el, none, b, c, d, wf, ⟨.str [41], tyFuncEnd⟩ :: rs, if two then c_combinator else eSSSC⟩ := by
-  cases two <;>
-    simp [step, runCb, cbChar, top, has, append_plain, incB, incC, incD, pseudoTT,
-      Functor.map, Except.map, bind, Except.bind, pure, Except.pure]
+theorem run_func (ns : NsMap) (neg two : Bool) (f : Cps) (args : List ArgTok) (hs : funcOk two f args = true)
+    (r : List Cps) (el : Option Val) (b c d : Nat) (wf : Bool) (rs : List Item) (e : Cps) (he : BeforeOk neg e) :
+    run ns ⟨ctxOf neg :: r, el, none, b, c, d, wf, rs, e⟩ (funcCooked two f args)
+      = .ok ⟨ctxOf neg :: r, el, none, b, c, d + (if two then 1 else 0), wf, funcPush two f args rs,
+             aftFunc neg two⟩ := by
+  simp only [funcOk, Bool.and_eq_true] at hs
+  obtain ⟨⟨⟨⟨_, hf⟩, _⟩, hargs⟩, hany⟩ := hs
+  simp only [funcCooked, List.cons_append, List.nil_append]
+  rw [run_cons_ok _ (step_func_open ns neg two f r el b c d wf rs e he hf)]
+  rw [run_append_ok _ (run_args ns _ (pseudoCtx_of two) _ el b c _ wf args hargs _ c_expressionstart)]
+  rw [hany]
+  simp only [if_true]
+  rw [run_cons_ok _ (step_func_close ns neg two r el b c _ wf _)]
+  simp [funcPush]
 
 /-- `expected` after a simple selector (root context) -/
 def Simple.after : Simple → Cps
@@ -674,12 +776,17 @@ theorem run_negArg (ns : NsMap) (x : NegArg) (hx : x.ok ns = true) (r : List Cps
     simp only [ctxOf, aftPseudo, if_true] at this
     simp only [NegArg.cooked, run_cons_ok _ this, NegArg.rpush, NegArg.kind, run_nil]
     cases pseudoIsElem two n <;> simp [Kind.count]
+  | func two f args =>
+    have := run_func ns true two f args hx r el b c d wf rs c_negation_arg hb
+    simp only [ctxOf, aftFunc, if_true] at this
+    simp only [NegArg.cooked, this, NegArg.rpush, NegArg.kind]
+    cases two <;> simp [Kind.count]
 
 theorem step_not_open (ns : NsMap) (fv : Cps) (r : List Cps) (el : Option Val) (b c d : Nat) (wf : Bool)
     (rs : List Item) (e : Cps) (he : BeforeOk false e) :
     step ns ⟨cxRoot :: r, el, none, b, c, d, wf, rs, e⟩ ⟨.negation, 58 :: fv⟩
       = .ok ⟨cxNegation :: cxRoot :: r, el, none, b, c, d, wf,
-             ⟨.str (normalize (58 :: fv)), tyNegStart⟩ :: rs, c_negation_arg⟩ := by
+             ⟨.str (normalizeName (58 :: fv)), tyNegStart⟩ :: rs, c_negation_arg⟩ := by
   rcases he with rfl | rfl | rfl <;>
     simp [step, runCb, cbNegation, top, has, append_plain, incB, incC, incD,
       Functor.map, Except.map, bind, Except.bind, pure, Except.pure]
@@ -716,15 +823,10 @@ theorem run_simple (ns : NsMap) (s : Simple) (hs : s.ok ns = true) (r : List Cps
     simp only [Simple.cooked, run_cons_ok _ this, Simple.rpush, Simple.inc, Simple.kind, Simple.after, run_nil]
     cases pseudoIsElem two n <;> simp [Kind.count]
   | func two f args =>
-    simp only [Simple.ok, Bool.and_eq_true] at hs
-    obtain ⟨⟨⟨⟨_, hf⟩, _⟩, hargs⟩, hany⟩ := hs
-    simp only [Simple.cooked, List.cons_append, List.nil_append]
-    rw [run_cons_ok _ (step_func_open ns two f r el b c d wf rs e he hf)]
-    rw [run_append_ok _ (run_args ns _ (pseudoCtx_of two) _ el b c _ wf args hargs _ c_expressionstart)]
-    rw [hany]
-    simp only [if_true]
-    rw [run_cons_ok _ (step_func_close ns two _ el b c _ wf _)]
-    cases two <;> simp [Simple.rpush, Simple.inc, Simple.kind, Kind.count, Simple.after]
+    have := run_func ns false two f args hs r el b c d wf rs e he
+    simp only [ctxOf, aftFunc, Bool.false_eq_true, if_false] at this
+    simp only [Simple.cooked, this, Simple.rpush, Simple.inc, Simple.kind, Simple.after]
+    cases two <;> simp [Kind.count]
   | not fv f1 x f2 =>
     simp only [Simple.ok, Bool.and_eq_true] at hs
     obtain ⟨⟨⟨⟨_, _⟩, _⟩, hx⟩, _⟩ := hs
